@@ -101,7 +101,9 @@ def check_exact(case, rec):
             kw["chunk_size"] = case["chunk"]
         f, v = lib(k, cond_pos.copy(), _what="Krige.__call__ at cond_pos", _tags=tags, **kw)
     amp = 1.0 if cfg.get("norm", "None") == "None" else 4.0 * (1.0 + float(np.max(np.abs(vals))))
-    tolf = 1e-7 * (1.0 + np.abs(vals)) * max(1.0, cnd * np.finfo(float).eps * 1e2) * amp
+    # the solve loses about eps * cond relative to the size of the data vector (not of the single value)
+    acc = max(1e-7, 50.0 * np.finfo(float).eps * cnd)
+    tolf = acc * (1.0 + float(np.max(np.abs(vals)))) * amp * np.ones_like(vals)
     errf = np.abs(f - vals)
     rec.discrepancy("interpolation", float(np.max(errf / tolf)), 1.0)
     require(
@@ -111,7 +113,7 @@ def check_exact(case, rec):
         dict(tags, kind="not_exact"),
     )
     sill = spec["var"] + spec["nugget"]
-    tolv = 1e-7 * sill * max(1.0, cnd * np.finfo(float).eps * 1e2)
+    tolv = acc * sill
     rec.discrepancy("variance_at_data", float(np.max(np.abs(v))), tolv)
     require(
         float(np.max(np.abs(v))) <= tolv,
